@@ -128,7 +128,15 @@ def run(ctx):
         for n in range(0, 6 if not ctx.thorough else 7):
             for t in itertools.product((0, 0x62, 0xB5, 6), repeat=n):
                 yield ("c05_parse", {"f": bytes(t).hex()})
-        # VALNONE: checksum bytes corrupted -> same attributes
+        # VALNONE: checksum bytes corrupted -> same attributes, in every msgmode (input frames for SET / POLL / SETPOLL)
+        inputs = [frame(0x06, 0x01, bytes((1, 7, 0, 1, 0, 0, 0, 0))), frame(0x06, 0x08, bytes((0xE8, 3, 1, 0, 1, 0))), frame(0x0A, 0x04, b""),
+                  frame(0x06, 0x00, b"\x01"), frame(0x06, 0x01, bytes((1, 7))), frame(0x06, 0x8A, bytes((0, 1, 0, 0, 1, 0, 0x52, 0x40, 0x80, 0x25, 0, 0)))]
+        for f in inputs:
+            for mode in (1, 2, 3, 0):
+                for _ in range(12 if not ctx.thorough else 200):
+                    ck = bytes((rng.randrange(256), rng.randrange(256)))
+                    if ck != f[-2:]:
+                        yield ("c05_valnone", {"f": f.hex(), "g": (f[:-2] + ck).hex(), "pbf": rng.choice((0, 1)), "mode": mode})
         for f in rf:
             for _ in range(64 if not ctx.thorough else 2000):
                 ck = bytes((rng.randrange(256), rng.randrange(256)))
